@@ -95,6 +95,13 @@ impl Frame {
 
         match result {
             Ok(0) => Restion::None,
+            Ok(1) => {
+                // Only the first header byte has arrived so far, so wait for the second one
+                match stream.read_exact(&mut buf[1..]) {
+                    Ok(()) => Self::from_stream_inner(stream, buf).into(),
+                    Err(_) => Restion::Err(WebsocketError::ReadError),
+                }
+            }
             Ok(_) => Self::from_stream_inner(stream, buf).into(),
             Err(ref e) if e.kind() == std::io::ErrorKind::WouldBlock => Restion::None,
             Err(_) => Restion::Err(WebsocketError::ReadError),
